@@ -107,11 +107,34 @@ class RequestPath(object):
             return 'request-local', 'role of %s' % root
         if root in params:
             return 'shared', 'parameter %s has no per-request role' % root
+        # a local that only ever holds values produced by calls in this activation (or the exception being handled)
+        if self._activation_local(fi, root, params):
+            return 'request-local', 'local %s holds a value produced in this activation' % root
         # module global?
         if root in fi.mod.assigns or root in fi.mod.imports:
             return 'shared', 'module-level object %s' % root
         # local of unknown provenance (e.g. alias of a parameter)
         return 'shared', 'local %s of unknown provenance' % root
+
+    def _activation_local(self, fi, name, params, depth=0):
+        """every assignment of the local is a call result, the exception being handled, or another such local"""
+        from ..astutil import assigned_value
+        if depth > 4 or name in params:
+            return False
+        vals = assigned_value(fi.node, name)
+        if not vals:
+            return False
+        for st, v, idx in vals:
+            if idx == 'exc':
+                continue
+            if idx is None and isinstance(v, ast.Call):
+                continue
+            if idx is None and isinstance(v, ast.Name) and (v.id in REQUEST_LOCAL_NAMES or self._activation_local(fi, v.id, params, depth + 1)):
+                continue
+            if idx is None and isinstance(v, ast.Constant):
+                continue
+            return False
+        return True
 
     def shared_aliases(self, fi):
         """{local: text} -- locals whose every assignment is a plain attribute/subscript chain (no call, no copy)
